@@ -536,6 +536,26 @@ pub fn run(out_path: &str, tier: &str) {
 						let mut texts = vec![String::from_utf8(errtext(t(CertificateParams::from_ca_cert_pem(&bundle).map(|_| ())))).unwrap()];
 						texts.push(String::from_utf8(errtext(t(CertificateSigningRequestParams::from_pem(&bundle).map(|_| ())))).unwrap());
 						texts.push(String::from_utf8(errtext(t(SubjectPublicKeyInfo::from_pem(&bundle).map(|_| ())))).unwrap());
+						// the key after a complete public key (in one DER buffer, in one PUBLIC KEY block), and the key with a damaged
+						// BEGIN line in front of a request / a certificate / a public key block (combined files as tools leave them)
+						let mut spki_then_key = k.kp.public_key_der();
+						spki_then_key.extend_from_slice(&info.pkcs8);
+						texts.push(String::from_utf8(errtext(t(SubjectPublicKeyInfo::from_der(&spki_then_key).map(|_| ())))).unwrap());
+						texts.push(String::from_utf8(errtext(t(SubjectPublicKeyInfo::from_pem(&pem_of("PUBLIC KEY", &spki_then_key)).map(|_| ())))).unwrap());
+						let damaged: Vec<String> = vec![pem.replacen("KEY-----", "KEY----", 1), pem.replacen("-----BEGIN", "----BEGIN", 1), pem.replacen("KEY-----\n", "KEY-----", 1)];
+						let csr_pem = match guarded(|| CertificateParams::default().serialize_request(&k.kp).and_then(|r| r.pem())) {
+							Outcome::Ok(s) => s,
+							_ => String::new(),
+						};
+						for dmg in &damaged {
+							for tail in [csr_pem.clone(), c.pem(), k.kp.public_key_pem()] {
+								let text = format!("{}{}", dmg, tail);
+								texts.push(String::from_utf8(errtext(t(CertificateSigningRequestParams::from_pem(&text).map(|_| ())))).unwrap());
+								texts.push(String::from_utf8(errtext(t(CertificateParams::from_ca_cert_pem(&text).map(|_| ())))).unwrap());
+								texts.push(String::from_utf8(errtext(t(SubjectPublicKeyInfo::from_pem(&text).map(|_| ())))).unwrap());
+								texts.push(String::from_utf8(errtext(t(KeyPair::from_pem(&text).map(|_| ())))).unwrap());
+							}
+						}
 						channel("Error(bundle key-then-certificate offered as CA certificate)", &info, &needles, texts.join("\n").as_bytes(), &mut n, &mut out);
 					}
 				}
